@@ -82,6 +82,8 @@ type family struct {
 	preambleOpts [][]string
 	// bigHints: a table of (mostly unused) paths that may be given to ImportNames in one call
 	bigHints []string
+	// canon: values File.CanonicalPath may be set to (besides leaving it empty)
+	canon []string
 }
 
 func (fam *family) hintOpts(p string) []hintOpt {
@@ -172,6 +174,16 @@ func (fam *family) scenario(c *explore.Ctx) *imp.World {
 			}
 		}
 	}
+	if len(fam.canon) > 0 {
+		if k := c.Choose(len(fam.canon) + 1); k > 0 {
+			w.F.CanonicalPath = fam.canon[k-1]
+			w.Log = append(w.Log, fmt.Sprintf("CanonicalPath=%q", fam.canon[k-1]))
+		}
+	}
+	// a large name table first (so that later hints for the same paths override it)
+	if len(fam.bigHints) > 0 && c.Bool() {
+		w.Names(fam.bigHints...)
+	}
 	if !hintsLast {
 		applySettings()
 	}
@@ -185,9 +197,7 @@ func (fam *family) scenario(c *explore.Ctx) *imp.World {
 	for _, p := range pre {
 		w.CgoPreamble(p)
 	}
-	if len(fam.bigHints) > 0 && c.Bool() {
-		w.Names(fam.bigHints...)
-	}
+
 	for _, p := range seq {
 		wi := fam.wrappers[0]
 		if len(fam.wrappers) > 1 {
